@@ -16,8 +16,16 @@ def add_exclusions(rng, src):
     plus an only_cover / no_cover name list.  Returns (src, to_cover kwargs, description)."""
     lines = src.split("\n")
     heads = [i for i, ln in enumerate(lines) if HEADER.match(ln)]
-    mode = rng.choice(["none", "pragma", "pragma", "pragma", "names", "both"])
+    mode = rng.choice(["none", "pragma", "pragma", "pragma", "names", "both", "early-return", "early-return"])
     marked = []
+    if mode == "early-return":
+        # exclude early returns / raises (an `if` whose body starts with return/raise), in particular in front of loops
+        early = [i for i in heads if lines[i].lstrip().startswith("if ") and i + 1 < len(lines)
+                 and lines[i + 1].lstrip().startswith(("return", "raise"))]
+        for i in early:
+            if rng.random() < 0.7:
+                lines[i] += rng.choice(["  # pynguin: no cover", "  # pragma: no cover"])
+                marked.append(i + 1)
     if mode in ("pragma", "both") and heads:
         for i in rng.sample(heads, min(len(heads), rng.choice([1, 1, 2, 3, 5]))):
             lines[i] += rng.choice(["  # pragma: no cover", "  # pynguin: no cover"])
